@@ -229,3 +229,13 @@ def cached_family(name, tier, seed, compute):
             except OSError:
                 pass
         return res
+
+
+def cached_family_peek(name, tier, seed):
+    """The cached result of a family for this tree, or None (never computes)."""
+    key = tree_key("%s|%s|%s" % (name, tier, seed))
+    path = os.path.join(BUILD, "cache", "%s-%s-%s.json" % (name, tier, key))
+    try:
+        return json.load(open(path))
+    except Exception:
+        return None
